@@ -4,7 +4,7 @@
 From Coq Require Import NArith ZArith Lia Bool List.
 From Coq Require Import ZifyN ZifyBool.
 From MiV Require Import Gen.Consts Gen.Bins Model.Arith Model.Page Model.Span Model.Compose
-  Proofs.Base Proofs.PageProofs Proofs.SpanBase Proofs.SpanInv Proofs.SpanProofs
+  Proofs.Base Proofs.BitsProofs Proofs.PageProofs Proofs.SpanBase Proofs.SpanInv Proofs.SpanProofs
   Proofs.ComposeBase Proofs.ComposeInv Proofs.ComposeSpan Proofs.ComposeOps Proofs.ComposeSeg.
 Import ListNotations.
 Local Open Scope N_scope.
@@ -149,4 +149,79 @@ Proof.
     rewrite (proj2 (find_page_In cs (cp_idx cp) cp Hs) (conj Hcp eq_refl)) in Ef.
     assert (Eg : ghost_has (cp_ghost cp) b = true) by (apply ghost_has_spec; apply (in_map fst) in Hg; exact Hg).
     rewrite Eg in Ef. discriminate.
+Qed.
+
+(* ------------------------------------------------------------------------------------- *)
+(* soundness of the resolution: an address that resolves to a live block lies inside it    *)
+(* ------------------------------------------------------------------------------------- *)
+
+(* the adjustment of _mi_page_ptr_unalign is the remainder modulo the block size (both variants) *)
+Lemma unalign_adjust bs diff : 0 < bs -> bs < W64 ->
+  (if negb (block_size_shift bs =? 0)
+   then N.land diff (wsub (wrap (N.shiftl 1 (block_size_shift bs))) 1)
+   else diff mod bs) = diff mod bs.
+Proof.
+  intros H0 Hb. destruct (block_size_shift bs =? 0) eqn:E; cbn [negb]; [reflexivity|].
+  apply N.eqb_neq in E.
+  destruct (block_size_shift_cases bs H0 Hb) as [(k & Hk & Ebs & Es)|Es]; [|contradiction].
+  rewrite Es. rewrite N.shiftl_1_l. rewrite wrap_small by (apply pow2_lt_W64; assumption).
+  pose proof (pow2_pos k). rewrite wsub_small by lia. rewrite land_mask. rewrite <- Ebs. reflexivity.
+Qed.
+
+Lemma unalign_range start bs p : 0 < bs -> bs < W64 -> p < W64 -> start < W64 ->
+  let blk := ptr_unalign start bs p in
+  (start <= p -> start <= blk /\ blk <= p /\ p < blk + bs) /\
+  (p < start -> blk <= p \/ W64 - bs < blk).
+Proof.
+  intros H0 Hb Hp Hs. cbv zeta. split.
+  - intros Hle. set (i := (p - start) / bs). set (off := (p - start) mod bs).
+    assert (Hoff : off < bs) by (apply N.mod_lt; lia).
+    assert (Ep : p = start + i * bs + off).
+    { pose proof (N.div_mod (p - start) bs ltac:(lia)) as D. fold i off in D. lia. }
+    pose proof (unalign_correct start bs i off H0 Hb Hoff) as U. rewrite <- Ep in U. rewrite (U Hp). lia.
+  - intros Hlt. unfold ptr_unalign. cbv zeta. rewrite (unalign_adjust bs _ H0 Hb).
+    set (adj := wsub p start mod bs). assert (Hadj : adj < bs) by (apply N.mod_lt; lia).
+    destruct (N.le_gt_cases adj p) as [E|E].
+    + left. rewrite wsub_small by assumption. lia.
+    + right. assert (Ew : wsub p adj = p + W64 - adj).
+      { unfold wsub. assert (El : (adj <=? p) = false) by (apply N.leb_gt; assumption). rewrite El. apply wrap_small. lia. }
+      rewrite Ew. lia.
+Qed.
+
+Theorem resolve_sound m p cs cp b r : mem_inv m -> p < W64 -> live_at m cs cp b r ->
+  resolve m p = Some (cs_base cs, cp_idx cp, b) ->
+  block_addr cs cp b <= p /\ p < block_addr cs cp b + bsize (cp_page cp).
+Proof.
+  intros Hm Hp L Hr.
+  destruct (live_inside _ _ _ _ _ Hm L) as (c & Hsp & Hi0 & Hbs0 & _ & Hcap & G1 & G2 & G3 & G4 & G5 & G6 & G7).
+  destruct L as (Hcs & Hcp & Hg). pose proof (seg_ok_In _ _ Hm Hcs) as Hs. pose proof Hs as (A1 & A2 & A3 & A4 & Hinv & _).
+  assert (E63 : 2 ^ 63 = 9223372036854775808) by reflexivity.
+  unfold resolve in Hr. destruct (ptr_segment p =? 0); [discriminate|].
+  destruct (find_seg m (ptr_segment p)) as [cs2|] eqn:Ef; [|discriminate].
+  destruct (find_page cs2 (segment_page_of (ptr_segment p) (fst (cs_st cs2)) p)) as [cp2|] eqn:Ep; [|discriminate].
+  set (start2 := fst (page_area cs2 (segment_page_of (ptr_segment p) (fst (cs_st cs2)) p))) in *.
+  set (blk := if has_aligned (cp_page cp2) then ptr_unalign start2 (bsize (cp_page cp2)) p else p) in *.
+  destruct ((start2 <=? blk) && (start2 + (blk - start2) / bsize (cp_page cp2) * bsize (cp_page cp2) =? blk)) eqn:Ec; [|discriminate].
+  inversion Hr as [[Eb Ei Ebi]]. clear Hr.
+  apply (find_seg_In _ _ _ Hm) in Ef as (Hcs2 & Eb2).
+  pose proof Hm as (Hnd & _). assert (cs2 = cs) by (apply (key_inj cs_base m cs2 cs Hnd Hcs2 Hcs); congruence). subst cs2.
+  apply (find_page_In _ _ _ Hs) in Ep as (Hcp2 & Ei2).
+  pose proof Hs as (_ & _ & _ & _ & _ & Hndp & _).
+  assert (cp2 = cp) by (apply (key_inj cp_idx _ cp2 cp Hndp Hcp2 Hcp); congruence). subst cp2.
+  assert (Es2 : start2 = fst (page_area cs (cp_idx cp))) by (unfold start2; rewrite Ei; reflexivity).
+  set (start := fst (page_area cs (cp_idx cp))) in *. clearbody start2. subst start2.
+  apply andb_prop in Ec as (Ec1 & Ec2). apply N.leb_le in Ec1. apply N.eqb_eq in Ec2. rewrite Ebi in Ec2.
+  assert (Elo : block_addr cs cp b = blk) by (unfold block_addr; fold start; exact Ec2).
+  rewrite Ebi. rewrite Elo in *.
+  assert (E48 : 2^48 = 281474976710656) by reflexivity.
+  assert (Hpsz : snd (page_area cs (cp_idx cp)) < 2^48).
+  { destruct (used_span_facts _ _ _ Hs Hsp) as (_ & _ & _ & Hc32 & Hi512 & _).
+    unfold MI_SEGMENT_SLICE_SIZE, MI_SLICES_PER_SEGMENT in *. nia. }
+  unfold blk in *. destruct (has_aligned (cp_page cp)); [|lia].
+  assert (Hb64 : bsize (cp_page cp) < W64) by (rewrite W64_val; unfold MI_SEGMENT_SLICE_SIZE in *; lia).
+  assert (Hs64 : start < W64) by (rewrite W64_val; unfold MI_SEGMENT_SLICE_SIZE in *; lia).
+  pose proof (unalign_range start (bsize (cp_page cp)) p Hbs0 Hb64 Hp Hs64) as U. cbv zeta in U. destruct U as (U1 & U2).
+  destruct (N.le_gt_cases start p) as [Hle|Hgt].
+  - destruct (U1 Hle) as (_ & U & V). split; assumption.
+  - exfalso. destruct (U2 Hgt) as [U|U]; [lia|]. rewrite W64_val in U. unfold MI_SEGMENT_SLICE_SIZE in *. lia.
 Qed.
